@@ -1026,6 +1026,11 @@ def r9(F, rep):
         len(begins), len(ends)), ok, detail="the explicit sum over hills would start after the hills just read: zero bias after a restart", func=f.q)
 
 
+def r10(F, rep):
+    from .rules_c05 import off_grid_membership
+    off_grid_membership(F, rep, "C03-R10")
+
+
 def run(F, rep, tier):
     r1(F, rep)
     r2(F, rep)
@@ -1036,3 +1041,4 @@ def run(F, rep, tier):
     r7(F, rep)
     r8(F, rep)
     r9(F, rep)
+    r10(F, rep)
